@@ -329,6 +329,7 @@ type gCase struct {
 	K    string    `json:"k"`
 	L    string    `json:"l"`
 	L2   string    `json:"l2"` // layout of the second object when it differs from the first one's
+	Sto  bool      `json:"sto"` // record the storage projection of both objects after every step (C16)
 	Hist []gAction `json:"hist"`
 }
 
@@ -669,6 +670,10 @@ func geomopsHandler(raw json.RawMessage) map[string]any {
 			}
 		}
 		step := map[string]any{"err": errc, "o1": proj(o[1], true), "o2": proj(o[2], true), "pool": pl}
+		if c.Sto {
+			sp := storageProj(o[1], o[2])
+			step["sto"] = map[string]any{"o1": sp[0], "o2": sp[1]}
+		}
 		if a.Op == "setpart" {
 			if partObj != nil {
 				step["part"] = proj(partObj, false)
